@@ -179,6 +179,7 @@ macro_rules! dyn_iter_common {
         fn fold_rest(self: Box<Self>) -> Vec<u128> {
             let conv = self.1;
             self.0.fold(Vec::new(), |mut v, x| {
+                assert!(v.len() < (1 << 22), "the iterator does not end: more than 4 194 304 elements folded");
                 v.push(conv(x));
                 v
             })
